@@ -5,6 +5,7 @@ import (
 	"go/ast"
 	"go/token"
 	"go/types"
+	"regexp"
 	"sort"
 	"strings"
 
@@ -134,4 +135,26 @@ func DumpSwapped(p *core.Prog) {
 			fmt.Printf("%s: %s\n", p.Pos(st.Ev.Pos()), d)
 		}
 	}
+}
+
+// DumpDroppedErrors prints, for every function of the module whose name matches re, the fallible calls whose error is
+// neither tested nor returned.
+func DumpDroppedErrors(p *core.Prog, re string) {
+	rx := regexp.MustCompile(re)
+	n := 0
+	for _, f := range p.AllFuncs() {
+		if f.Body == nil || !rx.MatchString(f.Name) {
+			continue
+		}
+		for _, e := range f.Graph().Events {
+			if e.Kind != core.EvCall || e.Call == nil || !lastIsError(f.Info().TypeOf(e.Call)) {
+				continue
+			}
+			n++
+			if ok, detail := errUsed(f, e); !ok {
+				fmt.Printf("%s: %s in %s: %s\n", p.Pos(e.Pos()), short(core.CalleeName(e)), f.Name, detail)
+			}
+		}
+	}
+	fmt.Printf("%d fallible calls examined\n", n)
 }
